@@ -128,6 +128,7 @@ func cmdApi(args []string) error {
 	sc.Buffer(make([]byte, 1<<20), 1<<28)
 	cases, evals := 0, 0
 	var specMismatch []interface{}
+	reused := map[string]*bexpr.Filter{}
 	optObs := map[string][]string{}  // (probe, key) -> observations
 	optInfo := map[string][]string{} // -> option lists
 	for sc.Scan() {
@@ -294,6 +295,13 @@ func cmdApi(args []string) error {
 			before := snapshot(cont.V)
 			res, desc := execute(fl, cont.V)
 			evals++
+			// one long-lived filter per expression sees every container in turn: it must behave like the fresh one
+			if reused[src] == nil {
+				reused[src], _ = bexpr.CreateFilter(src)
+			}
+			if _, rdesc := execute(reused[src], zoo.World("conts")[c.C-1].V); rdesc != desc {
+				ctx.emit(group{Rel: "flag", Ok: false, Info: map[string]interface{}{"law": "Execute on a reused filter = Execute on a fresh filter", "filter": src, "container": cont.Name, "fresh": trunc(desc), "reused": trunc(rdesc)}})
+			}
 			if snapshot(cont.V) != before {
 				ctx.emit(group{Rel: "flag", Ok: false, Info: info("Execute does not modify its input")})
 			}
